@@ -45,7 +45,7 @@ def make_replay(pid, jn, o, r, work):
         rec.update(found)
         rec['replayed'] = bool(found.get('replay_confirms'))
     safe = re.sub(r'[^A-Za-z0-9_.-]', '_', '%s-%s-%s' % (pid, jn, o['name']))
-    path = os.path.join(VERIF, 'replays', safe + '.json')
+    path = os.path.join(os.environ.get('VERIF_REPLAY_DIR') or os.path.join(VERIF, 'replays'), safe + '.json')
     os.makedirs(os.path.dirname(path), exist_ok=True)
     with open(path, 'w') as f:
         json.dump(rec, f, indent=1)
